@@ -23,7 +23,9 @@ func NewSortedCache(maxSizeBytes uint64) *SortedCache {
 
 func (s *SortedCache) Push(addValue []byte) {
 	s.byteSize += uint64(len(addValue))
-	s.tree.ReplaceOrInsert(addValue)
+	if replaced, ok := s.tree.ReplaceOrInsert(addValue); ok {
+		s.byteSize -= uint64(len(replaced))
+	}
 }
 
 func (s *SortedCache) Pop() (min []byte, ok bool) {
